@@ -103,7 +103,17 @@ fn compare(rc: &ReadCase, u: &RTrace, buffered: &[u64], st: &mut Stats) -> Resul
     }
     // sequence
     let k = fb.iter().zip(ui.iter()).take_while(|((a, _), (b, _))| a == b).count();
-    if u_clean {
+    // with end-of-stream closing off (and no switch back on) a master that is still open when the source ends is never
+    // completed: the buffered parse withholds it, so only "a prefix, and the same kind of ending" can be asked for
+    let open_ended = !rc.cfg.eof_end && !matches!(rc.driver, Driver::StreamingThenClose);
+    if u_clean && open_ended {
+        if k < fb.len() {
+            fail!("flatten-differs", "flattened item {}: unbuffered gives {} but buffered gives {}\n {}", k, ui.get(k).map(|t| t.0.short()).unwrap_or("<end>".into()), fb.get(k).map(|t| t.0.short()).unwrap_or("<end>".into()), ctx(&b));
+        }
+        if !b_clean {
+            fail!("buffered-errors-on-clean-input", "the unbuffered parse ends cleanly but the buffered one ends with {:?}\n {}", b.evs.last().map(|e| e.short()), ctx(&b));
+        }
+    } else if u_clean {
         if k < fb.len() || fb.len() != ui.len() {
             fail!("flatten-differs", "flattened item {}: unbuffered gives {} but buffered gives {}\n {}", k, ui.get(k).map(|t| t.0.short()).unwrap_or("<end>".into()), fb.get(k).map(|t| t.0.short()).unwrap_or("<end>".into()), ctx(&b));
         }
@@ -211,10 +221,15 @@ impl Check for C08 {
             let at = rng.range(1, rc.input.len() - 1);
             rc.script.pos_faults.push((at, io::Fault::Hard(rng.below(4) as u8)));
         }
+        // end-of-stream closing off, source simply ends (one case in ten): masters still open at the end are never
+        // completed, so the buffered parse may withhold them; everything else must still agree (see `compare`)
+        if rc.script.pos_faults.is_empty() && rng.chance(1, 10) {
+            rc.cfg.eof_end = false;
+        }
         // streaming sub-batch (one case in eight): the source reports a temporary end of file at tag boundaries
         // while EOF closing is off, and the caller switches closing on once the source is really exhausted (as
         // the async wrapper does): buffering that is interrupted and resumed must roll up the same children
-        if rc.script.pos_faults.is_empty() && rng.chance(1, 8) && !rc.input.is_empty() {
+        if rc.script.pos_faults.is_empty() && rc.cfg.eof_end && rng.chance(1, 8) && !rc.input.is_empty() {
             let unb = IterCfg { buffered: vec![], eof_end: false, capacity: None, ..rc.cfg.clone() };
             let bounds: Vec<usize> = crate::harness::slice_run(&rc.spec, &rc.input, &unb).ok_prefix().iter().filter(|(t, o)| !t.is_end() && *o > 0).map(|(_, o)| *o).collect();
             if !bounds.is_empty() {
@@ -233,9 +248,12 @@ impl Check for C08 {
 
     fn exec(&self, c: &Case, st: &mut Stats) -> Result<ExecOk, Fail> {
         let streaming = matches!(c.rc.driver, Driver::StreamingThenClose);
-        if !c.rc.cfg.eof_end && !streaming {
+        if !c.rc.cfg.eof_end && !streaming && (!c.rc.script.pauses.is_empty() || !matches!(c.rc.driver, Driver::UntilEnd { .. })) {
             st.inc("out_of_scope");
             return Ok(ExecOk { nontrivial: false });
+        }
+        if !c.rc.cfg.eof_end && !streaming {
+            st.inc("closing_off_runs");
         }
         if streaming {
             // temporary EOF is in scope only at tag boundaries (this matters for shrunk cases)
@@ -318,12 +336,12 @@ impl Check for C08 {
         v
     }
     fn rule(&self) -> &'static str {
-        "One case = specification (global and nested-in-themselves masters allowed) + bytes (valid / truncated / byte-faulted; known- and unknown-size encodings) + a buffered-id set (drawn, or ALL non-empty subsets of the master ids occurring in the input when there are at most 6) + tolerance set + delivery schedule; the buffered parse, with every Full replaced by Start/children/End, is compared with the unbuffered parse of the same bytes (equal and clean, or a prefix followed by an error), including all observable offsets. One case in eight is a streaming one: EOF closing off, temporary end-of-file reports at tag boundaries (also inside a master being buffered), the caller polling on and switching closing on once the source is exhausted; reference = the plain unbuffered parse. Another case in eight has one read fail hard at a drawn stream offset, for both parses alike. Non-trivial: at least one Full item was emitted. Distinct: FNV-1a fingerprint of bytes + configuration + schedule."
+        "One case = specification (global and nested-in-themselves masters allowed) + bytes (valid / truncated / byte-faulted; known- and unknown-size encodings) + a buffered-id set (drawn, or ALL non-empty subsets of the master ids occurring in the input when there are at most 6) + tolerance set + delivery schedule; the buffered parse, with every Full replaced by Start/children/End, is compared with the unbuffered parse of the same bytes (equal and clean, or a prefix followed by an error), including all observable offsets. One case in eight is a streaming one: EOF closing off, temporary end-of-file reports at tag boundaries (also inside a master being buffered), the caller polling on and switching closing on once the source is exhausted; reference = the plain unbuffered parse. One case in ten has closing off and a source that simply ends (then: a prefix and the same kind of ending). Another case in eight has one read fail hard at a drawn stream offset, for both parses alike. Non-trivial: at least one Full item was emitted. Distinct: FNV-1a fingerprint of bytes + configuration + schedule."
     }
     fn assumptions(&self) -> Vec<&'static str> {
         vec!["default end-of-stream closing, as the property does not range over that switch", "both runs use the same delivery schedule; schedule dependence as such is C04's subject"]
     }
     fn expected_probes(&self) -> Vec<&'static str> {
-        vec!["probe_full_items", "probe_nested_full", "probe_error_ending", "probe_error_inside_buffered_master", "sweeps", "streaming_runs", "fault_hard_delivered_while_buffering"]
+        vec!["probe_full_items", "probe_nested_full", "probe_error_ending", "probe_error_inside_buffered_master", "sweeps", "streaming_runs", "closing_off_runs", "fault_hard_delivered_while_buffering"]
     }
 }
